@@ -479,7 +479,7 @@ func ruleSubjectGate() check.Rule {
 							}
 							// broadcast helpers and notifications to stored observers
 							if sel, ok := ast.Unparen(y.Fun).(*ast.SelectorExpr); ok {
-								if id, ok := ast.Unparen(sel.X).(*ast.Ident); ok && objOf(info, id) == rv && strings.HasPrefix(sel.Sel.Name, "broadcast") {
+								if id, ok := ast.Unparen(sel.X).(*ast.Ident); ok && objOf(info, id) == rv && subjectHelperKind(m, p, y) == "broadcast" {
 									check1(y, "broadcast "+sel.Sel.Name)
 									return true
 								}
